@@ -1,29 +1,205 @@
 (* C03 -- A signature identifies the active program and is never stale.
-   Statements only; proofs are in Sig/SigProofs.v.  The model (Sig/SigDefs.v)
-   mirrors i_mep::pack / hash / signature, MurmurHash3 x64-128 (seed 1973),
-   hash_t::combine and the cache action of every public mutator of i_mep,
-   i_ga, i_de and team, and is compared numerically with the real code on
-   every check run. *)
+
+   Statements only; the proofs are in Sig/SigProofs.v and Sig/TreeProofs.v.
+   The model (Sig/SigDefs.v, Sig/Murmur.v, Sig/Bits64.v on top of the shared
+   Mep/Genome.v) mirrors i_mep::pack / hash / signature, MurmurHash3 x64-128
+   (seed 1973), hash_t::combine and the cache action of every public mutator
+   of i_mep, i_ga, i_de and team<i_mep>; it is compared numerically with the
+   real code (128-bit signatures, the raw cached member, return values) after
+   every operation on every check run.
+
+   Reading guide.
+     canon t          the expression tree as the property means it: opcode of
+                      every node, bits of the constant of every parametric
+                      terminal, children in order -- no positions
+     cache_ok h x     signature_ is empty or equals the hash of the content
+     *_reach x        x is a state of an object after ANY finite sequence of
+                      public operations (histories of unbounded length); the
+                      operands of crossover are arbitrary individuals
+   What is assumed, by name:
+     coherent U / distinct_opcodes U   opcodes < 2^16 identify the symbol
+     A_hash           MurmurHash3 does not collide on the two streams involved
+     H_cse            (hypothesis of the MCse step) cse() keeps the packed stream *)
 From Coq Require Import ZArith NArith List Bool.
-From VV Require Import Base.F64 Mep.Genome Sig.Bits64 Sig.Murmur Sig.SigDefs Sig.SigProofs.
+From VV Require Import Base.F64 Base.Values Interp.Strategy Mep.Genome Sig.Bits64 Sig.Murmur Sig.SigDefs Sig.SigProofs Sig.TreeProofs.
 Import ListNotations.
 
-(* ---- pack is the code of the active expression tree *)
+(* ================= 1. pack is a prefix-free code of the active tree ====== *)
 Theorem C03_pack_is_tree_code : forall fuel g l,
   pack fuel g l = option_map encode_tree (tree_of fuel g l).
 Proof. exact pack_is_tree_code. Qed.
 Print Assumptions C03_pack_is_tree_code.
 
-(* ---- the signature is a function of the active tree only *)
+(* no code is a proper prefix of another, and equal codes mean equal trees *)
+Theorem C03_encode_tree_prefix_free : forall U, coherent U -> forall t1, shaped t1 -> over U t1 ->
+  forall t2 r1 r2, shaped t2 -> over U t2 ->
+  encode_tree t1 ++ r1 = encode_tree t2 ++ r2 -> canon t1 = canon t2 /\ r1 = r2.
+Proof. exact encode_prefix_inj. Qed.
+Print Assumptions C03_encode_tree_prefix_free.
+
+Theorem C03_pack_eq_iff_tree_eq : forall U, coherent U -> forall g1 g2 t1 t2,
+  genome_over U g1 -> genome_over U g2 -> active_tree g1 = Some t1 -> active_tree g2 = Some t2 ->
+  (mep_pack g1 = mep_pack g2 <-> canon t1 = canon t2).
+Proof. exact pack_eq_iff_tree_eq. Qed.
+Print Assumptions C03_pack_eq_iff_tree_eq.
+
+(* ================= 2. the signature is a function of the tree only ======= *)
 Theorem C03_signature_depends_only_on_tree : forall g,
   hash_mep g = option_map (fun t => murmur128 (encode_tree t)) (active_tree g).
 Proof. exact hash_mep_is_tree_hash. Qed.
 Print Assumptions C03_signature_depends_only_on_tree.
 
-(* ---- never stale, i_de: in every state reachable by public operations
-   (operator[], operator=(vector), crossover, load, signature) the signature
-   reported is the hash of the current content *)
+Theorem C03_same_tree_same_signature : forall g1 g2 t1 t2,
+  active_tree g1 = Some t1 -> active_tree g2 = Some t2 -> shaped t1 -> shaped t2 ->
+  canon t1 = canon t2 -> hash_mep g1 = hash_mep g2.
+Proof. exact same_tree_same_signature. Qed.
+Print Assumptions C03_same_tree_same_signature.
+
+(* changing any gene outside the active code never changes the signature *)
+Theorem C03_signature_ignores_introns : forall g l' x,
+  ~ reaches g (best g) l' -> hash_mep (set_cell g l' x) = hash_mep g.
+Proof. exact signature_ignores_introns. Qed.
+Print Assumptions C03_signature_ignores_introns.
+
+(* laying the same tree out differently (any simulation between the loci of
+   two genomes of any sizes: permuted rows, gaps, shared or duplicated
+   sub-expressions) never changes tree or signature *)
+Theorem C03_signature_ignores_layout : forall R g g' t t',
+  layout_sim R g g' -> R (best g) (best g') ->
+  active_tree g = Some t -> active_tree g' = Some t' ->
+  t = t' /\ hash_mep g = hash_mep g'.
+Proof. exact signature_ignores_layout. Qed.
+Print Assumptions C03_signature_ignores_layout.
+
+(* "distinct trees => distinct signatures", up to the hash: A_hash is the
+   named hypothesis; the correspondence run measures it (a colliding pair of
+   generated streams is reported as a violation with both inputs) *)
+Theorem C03_signature_eq_iff_tree_eq_up_to_A_hash :
+  forall Streams : list byte -> Prop,
+  (forall a b, Streams a -> Streams b -> murmur128 a = murmur128 b -> a = b) (* A_hash *) ->
+  forall U, coherent U -> forall g1 g2 t1 t2,
+  genome_over U g1 -> genome_over U g2 -> active_tree g1 = Some t1 -> active_tree g2 = Some t2 ->
+  Streams (encode_tree t1) -> Streams (encode_tree t2) ->
+  (hash_mep g1 = hash_mep g2 <-> canon t1 = canon t2).
+Proof. exact signature_eq_iff_tree_eq. Qed.
+Print Assumptions C03_signature_eq_iff_tree_eq_up_to_A_hash.
+
+(* equal signatures => equal outputs: any semantics that is a function of the
+   expression tree (C01 proves the interpreter is one: its result is the
+   denotation of the unfolded tree) gives equal results for equal trees *)
+Theorem C03_equal_tree_equal_output : forall (X : Type) (den : ctree -> X) g1 g2 t1 t2,
+  active_tree g1 = Some t1 -> active_tree g2 = Some t2 -> canon t1 = canon t2 ->
+  den (canon t1) = den (canon t2).
+Proof. intros X den g1 g2 t1 t2 _ _ E. exact (f_equal den E). Qed.
+Print Assumptions C03_equal_tree_equal_output.
+
+(* ================= 3. the cached signature is never stale ================= *)
+(* one step: every public mutator preserves the invariant ... *)
+Theorem C03_mep_step_preserves_invariant : forall pc x o y,
+  cache_ok hash_mep x -> mep_op_ok (cache_ok hash_mep) x o -> mep_step pc x o = Some y -> cache_ok hash_mep y.
+Proof. exact mep_step_preserves. Qed.
+Print Assumptions C03_mep_step_preserves_invariant.
+
+(* ... hence, for every history (and every gene-equality tolerance pc): *)
+Theorem C03_cache_never_stale_mep : forall pc x h x',
+  mep_reach pc x -> signature hash_mep x = Some (h, x') -> hash_mep (content x) = Some h.
+Proof. exact mep_never_stale. Qed.
+Print Assumptions C03_cache_never_stale_mep.
+
+Theorem C03_cache_never_stale_iga : forall x h x',
+  iga_reach x -> signature hash_ga x = Some (h, x') -> hash_ga (content x) = Some h.
+Proof. exact iga_never_stale. Qed.
+Print Assumptions C03_cache_never_stale_iga.
+
+(* i_de with the repaired operator=(const std::vector<double>&) *)
 Theorem C03_cache_never_stale_ide : forall x h x',
   ide_reach x -> signature hash_de x = Some (h, x') -> hash_de (content x) = Some h.
 Proof. exact ide_never_stale. Qed.
 Print Assumptions C03_cache_never_stale_ide.
+
+(* teams: the team's cache and every member's cache *)
+Theorem C03_cache_never_stale_team : forall pc t h t',
+  team_reach pc t -> team_signature t = Some (h, t') ->
+  hash_team (content t) = Some h /\ Forall (cache_ok hash_mep) (content t').
+Proof.
+  intros pc t h t' Hr Hs. apply team_reach_ok in Hr.
+  destruct (team_signature_correct t h t' Hr Hs) as [H1 [_ [H3 _]]]. exact (conj H1 H3).
+Qed.
+Print Assumptions C03_cache_never_stale_team.
+
+(* ================= 4. team signature = ordered fold of combine ============ *)
+Theorem C03_team_signature_is_fold_of_combine : forall pc t h t',
+  team_reach pc t -> team_signature t = Some (h, t') ->
+  exists hs, all_some (map member_hash (content t)) = Some hs /\ h = fold_combine hzero hs.
+Proof. exact team_signature_is_fold. Qed.
+Print Assumptions C03_team_signature_is_fold_of_combine.
+
+(* ================= non-vacuity ============================================ *)
+Definition sX := mk_sym 0 0 [] false.
+Definition sC := mk_sym 2 0 [] true.
+Definition sF := mk_sym 4 0 [0%nat; 0%nat] false.
+Definition one : f64 := F64.of_bits 4607182418800017408.
+Definition gF a b := mk_gene sF F64.zero [a; b].
+Definition gX := mk_gene sX F64.zero [].
+Definition gC := mk_gene sC one [].
+(* F(X, 1.0) on rows 0,1,2 ... *)
+Definition ex_g1 : genome :=
+  {| rows := 3; cats := 1; best := mk_locus 0 0;
+     cell := fun r c => match r, c with
+                        | 0, 0 => Some (gF 1 2) | 1, 0 => Some gX | 2, 0 => Some gC | _, _ => None end%nat |}.
+(* ... and on rows 1,3,4 of a larger genome with introns on rows 0 and 2 *)
+Definition ex_g2 : genome :=
+  {| rows := 5; cats := 1; best := mk_locus 1 0;
+     cell := fun r c => match r, c with
+                        | 0, 0 => Some (gF 2 3) | 1, 0 => Some (gF 3 4) | 2, 0 => Some gC
+                        | 3, 0 => Some gX | 4, 0 => Some gC | _, _ => None end%nat |}.
+Definition ex_U (s : sym) : Prop := In s [sX; sC; sF].
+
+Example ex_distinct_opcodes : distinct_opcodes ex_U /\ coherent ex_U.
+Proof.
+  assert (H : distinct_opcodes ex_U).
+  { intros s1 s2 [<-|[<-|[<-|[]]]] [<-|[<-|[<-|[]]]] E; try reflexivity; vm_compute in E; discriminate. }
+  split; [exact H|apply distinct_coherent; exact H].
+Qed.
+
+(* the packed stream: 04 00 | 00 00 | 02 00 + 8 bytes of 1.0 *)
+Example ex_pack : mep_pack ex_g1 = Some [4; 0; 0; 0; 2; 0; 0; 0; 0; 0; 0; 0; 240; 63]%N.
+Proof. vm_compute. reflexivity. Qed.
+
+Example ex_same_tree_two_layouts :
+  exists t, active_tree ex_g1 = Some t /\ active_tree ex_g2 = Some t /\ shaped t /\
+            hash_mep ex_g1 = hash_mep ex_g2 /\ hash_mep ex_g1 <> None.
+Proof.
+  destruct (active_tree ex_g1) as [t|] eqn:E1; [|vm_compute in E1; discriminate].
+  exists t. split; [reflexivity|]. assert (E2 : active_tree ex_g2 = Some t).
+  { vm_compute in E1. inversion E1. vm_compute. reflexivity. }
+  split; [exact E2|].
+  assert (GO : genome_over ex_U ex_g1).
+  { intros r c ge H. destruct r as [|[|[|r]]]; destruct c as [|c]; cbn in H; inversion H; cbn; unfold ex_U; cbn; tauto. }
+  split; [exact (proj1 (tree_of_props ex_U ex_g1 GO _ _ _ E1))|].
+  split; [|vm_compute; discriminate]. vm_compute. reflexivity.
+Qed.
+
+(* a different constant gives a different stream and (here) a different signature *)
+Example ex_different_constant_different_signature :
+  hash_mep (set_cell ex_g1 (mk_locus 2 0) (mk_gene sC F64.zero [])) <> hash_mep ex_g1.
+Proof. vm_compute. discriminate. Qed.
+
+(* a history with mutation, replace, crossover, load and signature calls is
+   reachable, and its signature is defined *)
+Definition ex_history : list mep_op :=
+  [MSignature; MReplace (mk_locus 1 0) gC; MSignature; MMutation [(mk_locus 2 0, gX)];
+   MCrossover (clear ex_g1) true false [mk_locus 2 0]; MSignature; MLoad (Some ex_g1); MGetBlock (mk_locus 1 0);
+   MSignature].
+Example ex_history_runs : exists x, run (mep_step (fun _ _ => false)) (clear ex_g1) ex_history = Some x /\
+  sig_cache x <> None /\ cache_ok_b hash_mep x = true.
+Proof. eexists. split; [vm_compute; reflexivity|]. split; [vm_compute; discriminate|vm_compute; reflexivity]. Qed.
+
+(* combine is not commutative: the order of the members matters *)
+Example C03_combine_not_commutative :
+  fold_combine hzero [(1, 2); (3, 4)]%N <> fold_combine hzero [(3, 4); (1, 2)]%N.
+Proof. vm_compute. discriminate. Qed.
+
+(* wrap-around of combine is modulo 2^64 *)
+Example ex_combine_wraps : hcombine (M64 - 1, 1)%N (5, 0)%N = (18446744073709551584, 37)%N.
+Proof. vm_compute. reflexivity. Qed.
